@@ -15,8 +15,16 @@ THEORIES = ['theories/L4/GR1Spec.vo', 'theories/L4/InitSpec.vo',
 HEADER = '''From Coq Require Import List Bool Arith.
 Import ListNotations.
 From Omega Require Import L4.Arena L4.Tables.
-From OmegaGen Require Import FixpointGen Gr1Gen.
+From OmegaGen Require Import FixpointGen Gr1Gen TransducerGen.
 From OmegaGP Require Import TransducerModel.
+Definition built_as (nc nx ny : nat) (r : option (bdd * bdd))
+    (act : list (list bool)) (init : list bool) : bool :=
+  match r with
+  | Some p => eq2 (to_table2 nc nx ny (fst p)) act && eq1 (tt1 nc nx ny (snd p)) init
+  | None => false
+  end.
+Definition refused (r : option (bdd * bdd)) : bool :=
+  match r with Some _ => false | None => true end.
 Definition opt_tbl (nc nx ny : nat) (o : option bdd) : option (list bool) :=
   match o with Some u => Some (tt1 nc nx ny u) | None => None end.
 Definition opt_eq1 (a b : option (list bool)) : bool :=
@@ -34,7 +42,7 @@ class ImplCheck:
 
     def prove(self, ctx):
         with ctx.coq_lock():
-            gen_games.ensure_gr1(ctx)
+            gen_games.ensure_transducers(ctx)
             ctx.prove_with_deps(self.PROOF_FILES[-1])
         ctx.trusted.append(self.model_note)
         ctx.assumptions.append(
@@ -158,25 +166,32 @@ class ImplCheck:
                 except Exception as e:
                     return [Mismatch('construction raised', gr1games.case_of(g),
                                      impl=repr(e), property_fails=True)]
+                H_, G_ = transducers.mem_sizes(g, self.KIND)
+                ar_ = g['ar']
+                vsize = ar_.ns * ar_.np * (H_ * G_) ** 2
+                small = vsize <= (20000 if ctx.thorough else 4500)
+                # model evaluation cost grows with |valuations| x number
+                # of iterates; larger instances are only analysed in
+                # closed loop below
+                if small:
+                    gen, ne = transducers.coq_model_terms(
+                        f'g{i + len(corpus)}_', g, self.KIND, moore, plus_one, q)
                 if r is None:
                     refused += 1
+                    if small:
+                        terms.append(f'refused ({gen})')
+                        info.append((g, moore, plus_one, q,
+                                     'refusal (AssertionError)'))
                     continue
                 built += 1
                 key = f'{r["ear"].ns}'
                 hist[key] = hist.get(key, 0) + 1
-                vsize = r['ear'].ns * r['ear'].np
-                if vsize <= (20000 if ctx.thorough else 4500):
-                    # model evaluation cost grows with |valuations| x number
-                    # of iterates; larger instances are only analysed in
-                    # closed loop below
-                    act, init, ne = transducers.coq_model_terms(
-                        f'g{i + len(corpus)}_', g, self.KIND, moore, plus_one, q)
-                    terms.append(f'eq2 (to_table2 {ne} ({act})) '
-                                 f'{games.lit2(r["action"])}')
-                    terms.append(f'opt_eq1 (opt_tbl {ne} ({init})) '
-                                 f'(Some {games.lit1(r["init"])})')
-                    info.append((g, moore, plus_one, q, 'action[impl]'))
-                    info.append((g, moore, plus_one, q, 'init[impl]'))
+                if small:
+                    terms.append(f'built_as {ne} ({gen}) '
+                                 f'{games.lit2(r["action"])} '
+                                 f'{games.lit1(r["init"])}')
+                    info.append((g, moore, plus_one, q,
+                                 'action[impl] / init[impl]'))
                 else:
                     skipped_large += 1
                 if sample is None:
@@ -197,7 +212,8 @@ class ImplCheck:
         for (g, moore, plus_one, q, what), ok in zip(info, res):
             if not ok:
                 mism.append(Mismatch(
-                    f'{what} of the real transducer differs from the model',
+                    f'{what} of the real transducer construction differs from the '
+                    'generated model',
                     dict(gr1games.case_of(g), moore=moore, plus_one=plus_one,
                          qinit=q, kind=self.KIND)))
         ctx.cov['evaluations'] += len(res)
